@@ -4,7 +4,7 @@ CONSTANTS
   NConn = 3
   MaxReq = 3
   QCapG = 2
-  Kinds = {"single", "stream2", "fail", "txn"}
+  Kinds = {"single", "stream2", "fail", "txn", "rlong", "rshort"}
   MaxOps = 14
   MaxCredit = 5
   MaxTick = 3
